@@ -9,7 +9,6 @@ package apph
 import (
 	"fmt"
 	"math/big"
-	"strings"
 	"time"
 
 	ethcmn "github.com/ethereum/go-ethereum/common"
@@ -23,10 +22,9 @@ import (
 
 type recDB struct {
 	*state.StateDB
-	on      bool
-	log     []string
-	marks   map[int]int
-	touched []string // addresses of reverted balance entries (non-zero SubBalance / AddBalance, Suicide)
+	on    bool
+	log   []string
+	marks map[int]int
 }
 
 func hexAddr(a []byte) string { return fmt.Sprintf("%x", a) }
@@ -60,12 +58,6 @@ func (r *recDB) Snapshot() int {
 
 func (r *recDB) RevertToSnapshot(id int) {
 	if n, ok := r.marks[id]; ok && n <= len(r.log) {
-		for _, e := range r.log[n:] {
-			f := strings.Split(e, ":")
-			if f[0] == "x" || (len(f) == 3 && f[2] != "0") {
-				r.touched = append(r.touched, f[1])
-			}
-		}
 		r.log = r.log[:n]
 	}
 	r.StateDB.RevertToSnapshot(id)
@@ -100,7 +92,6 @@ type VmOut struct {
 	Failed  bool
 	RetCode bool
 	Effs    []string
-	Touched []string
 	Err     string
 }
 
@@ -115,11 +106,7 @@ func (v VmOut) tokens() string {
 			e += x
 		}
 	}
-	t := "-"
-	if len(v.Touched) > 0 {
-		t = strings.Join(v.Touched, ",")
-	}
-	return fmt.Sprintf("%d %d %s %s %s %s", v.GasLeft, v.Refund, olvmB01(v.Failed), olvmB01(v.RetCode), e, t)
+	return fmt.Sprintf("%d %d %s %s %s", v.GasLeft, v.Refund, olvmB01(v.Failed), olvmB01(v.RetCode), e)
 }
 
 func olvmB01(b bool) string {
@@ -165,7 +152,7 @@ func ShadowRun(chainID string, height int64, ts time.Time, proposer []byte, acct
 		CanTransfer: core.CanTransfer, Transfer: core.Transfer,
 		GetHash:  func(uint64) ethcmn.Hash { return ethcmn.Hash{} },
 		Coinbase: ethcmn.BytesToAddress(proposer), GasLimit: 1 << 62,
-		BlockNumber: big.NewInt(height), Time: big.NewInt(ts.Unix()), Difficulty: big.NewInt(1),
+		BlockNumber: big.NewInt(height), Time: big.NewInt(ts.Unix()), Difficulty: big.NewInt(1), BaseFee: big.NewInt(0),
 	}
 	evm := ethvm.NewEVM(blockCtx, ethvm.TxContext{Origin: sender, GasPrice: price}, rec, cfg, ethvm.Config{Debug: true, Tracer: &startMark{rec}})
 	rules := cfg.Rules(blockCtx.BlockNumber)
@@ -194,6 +181,5 @@ func ShadowRun(chainID string, height int64, ts time.Time, proposer []byte, acct
 	} else {
 		out.Effs = rec.log
 	}
-	out.Touched = rec.touched
 	return out, nil
 }
